@@ -75,7 +75,7 @@ def cases(tier, seed):
     # --- Riks on the 1-DOF truss (no placement: the model is an abstract angle)
     for la0 in (1e-6, 1e-3, 1e-2):
         for ig in (2, 4):
-            for mls in (None, 5):
+            for mls in (2000, 5):      # 2000: enough for the whole path [-1, 1] (<= 700 steps); 5: stops inside the span
                 add(kind="riks_truss", la_arc0=la0, iter_goal=ig, max_load_steps=mls, places=["I"])
     # --- point mass on springs over a plane
     for stiff in ("stiff", "soft"):
@@ -91,7 +91,7 @@ def cases(tier, seed):
                     add(kind="rb_arm", load=load, spring=spring, contact=contact, nsteps=n, opts="tight", places=P6 if thorough else P3)
     # --- Riks on the point-mass scene (contact never closes / closes)
     for load in ("stay_open", "press", "stay_closed"):
-        add(kind="riks_pm", load=load, spring="force", stiff="stiff", la_arc0=1e-2, iter_goal=4, max_load_steps=None, places=P3)
+        add(kind="riks_pm", load=load, spring="force", stiff="stiff", la_arc0=1e-2, iter_goal=4, max_load_steps=60, places=P3)
     # --- cantilevers, Newton
     nels = (1, 2, 4) if thorough else (2,)
     for nel in nels:
@@ -125,7 +125,7 @@ def cases(tier, seed):
     # Riks on cantilevers
     for form in _forms(2, cons_list=[None] if not thorough else [None, [1, 2], [0, 1, 2]]):
         for load in ("Fgen", "FMgen"):
-            for mls in (None, 3):
+            for mls in (60, 3):        # 60: the span end is normally reached after ~20 steps (a path that turns back at a limit point is cut)
                 add(kind="riks_rod", form=form, load=load, la_arc0=1e-2, iter_goal=4, max_load_steps=mls, opts="tight", places=P3)
     return out
 
@@ -233,8 +233,8 @@ def _solve(case, system):
     with capture() as rec:
         try:
             if riks:
-                kw = {} if case["max_load_steps"] is None else {"max_load_steps": case["max_load_steps"]}
-                out["sol"] = Riks(system, la_arc0=case["la_arc0"], la_arc_span=np.array(span), iter_goal=case["iter_goal"], options=opts, **kw).solve()
+                out["sol"] = Riks(system, la_arc0=case["la_arc0"], la_arc_span=np.array(span), iter_goal=case["iter_goal"], options=opts,
+                                  max_load_steps=case["max_load_steps"]).solve()
             else:
                 out["sol"] = Newton(system, n_load_steps=case["nsteps"], verbose=False, options=opts).solve()
         except (AssertionError, RuntimeError) as e:       # a loud stop; anything else is a crash and is left to the runner
